@@ -66,8 +66,12 @@ def listOf (cfg : Cfg) (st : St) (q : Query) : List Rec :=
 
 def findingOf (cfg : Cfg) (q : Query) (store : List Rec) (causes : List String) (l : List Rec := []) : List String :=
   let stale (id : String) := if causes.isEmpty then [] else [id]
-  let window := if q.slot.isTime && (q.fromT.isSome || q.toT.isSome) && !bsAllLt cfg then ["C07-window-bounds-operator"] else []
+  let outside (b : Option Int) : Bool := match b with | some x => decide (x < minInt64) || decide (x > maxInt64) | none => false
+  let window := (if q.slot.isTime && (q.fromT.isSome || q.toT.isSome) && !bsAllLt cfg then ["C07-window-bounds-operator"] else []) ++
+    (if q.slot.isTime && !cfg.windowBoundsChecked && (outside q.fromT || outside q.toT) then ["C07-window-bound-wraps"] else [])
   let cold (f : Bool) := if !f && store.any (fun r => !carries q.slot r) then ["C07-cold-build-no-zero-filter"] else []
+  (if !cfg.claimLoserRefiled && store.any (fun r => carries q.slot r && !l.any (fun x => x.key == r.key))
+    then ["C07-claim-loser-dropped"] else []) ++
   match q.slot with
   | .value t =>
     if store.any (fun r => r.ct != t) then ["C07-value-index-mixed-types"]
@@ -89,10 +93,27 @@ def flagStr (fs : List String) : String := String.join (fs.map (fun f => "\t#F:"
 structure DSt where
   cfg : Cfg
   s : St
+  /-- a shift held between its selection pass and its deletes (op `sheld`): threshold, selected keys -/
+  held : Option (Int × List String) := none
 
 def step (d : DSt) (line : String) : DSt × String :=
   match line.splitOn " " with
-  | ["case", _] => ({ d with s := St.init }, line)
+  | ["case", _] => ({ d with s := St.init, held := none }, line)
+  | ["sheld", idx, ord, n, v] =>
+    match slotOf idx, n.toNat?, v.toInt? with
+    | some sl, some n, some v =>
+      if (ord != "asc" && ord != "desc") || d.held.isSome then (d, "bad-op") else
+      if d.s.store.isEmpty then (d, "done") else
+      let q : Query := { slot := sl, asc := ord == "asc", from_ := 0, limit := n, fromT := none, toT := none }
+      let (s', keys) := claimSelect d.cfg d.s q v
+      ({ d with s := s', held := some (v, keys) }, "held")
+    | _, _, _ => (d, "bad-op")
+  | ["srelease"] =>
+    match d.held with
+    | none => (d, "ok")
+    | some (v, keys) =>
+      let (s', claimed) := claimRelease d.cfg d.s v keys
+      ({ d with s := s', held := none }, "r " ++ ",".intercalate claimed)
   | ["set", k, t, v, c, u, e] =>
     match ctOf t, v.toInt?, c.toInt?, u.toInt?, e.toInt? with
     | some ct, some v, some c, some u, some e =>
@@ -143,6 +164,21 @@ def step (d : DSt) (line : String) : DSt × String :=
         | none => "notfound"
         | some o => if o.ct == .bytes then "patched" else if o.ct == .void then "notfound" else "mismatch"
       ({ d with s := stepPatch d.cfg d.s k m }, rep)
+  | ["patchc", k, e] =>
+    match metaOf e with
+    | none => (d, "bad-op")
+    | some m =>
+      let rep := match findKey k d.s.store with
+        | none => "created"
+        | some o => if o.ct == .bytes then "patched" else if o.ct == .void then "created" else "mismatch"
+      ({ d with s := stepPatchCreate d.cfg d.s k m }, rep)
+  | ["shiftkeys", ks] =>
+    let keys := (ks.splitOn ",").filter (· != "")
+    let (s', out) := keys.foldl (fun (acc : St × List String) k =>
+      match findKey k acc.1.store with
+      | none => acc
+      | some _ => (stepDel acc.1 k, acc.2 ++ [k])) (d.s, [])
+    ({ d with s := s' }, "r " ++ ",".intercalate out)
   | ["patchexp", e] =>
     match metaOf e with
     | none => (d, "bad-op")
@@ -173,10 +209,11 @@ def step (d : DSt) (line : String) : DSt × String :=
     | _, _, _, _ => (d, "bad-op")
   | ["reload"] => ({ d with s := if d.s.store.isEmpty then d.s else stepReload d.s }, "ok")
   | ["q", idx, ord, fr, lim, ft, tt, _via] =>
-    match slotOf idx, fr.toNat?, lim.toNat?, optT ft, optT tt with
+    match slotOf idx, fr.toInt?, lim.toNat?, optT ft, optT tt with
     | some sl, some fr, some lim, some ft, some tt =>
       if ord != "asc" && ord != "desc" then (d, "bad-op") else
-      let q : Query := { slot := sl, asc := ord == "asc", from_ := fr, limit := lim, fromT := ft, toT := tt }
+      -- (`GetTreasuresByBeacon`: `if from < 0 { from = 0 }`)
+      let q : Query := { slot := sl, asc := ord == "asc", from_ := fr.toNat, limit := lim, fromT := ft, toT := tt }
       match answer d.cfg d.s q with
       | none => (d, "err noswamp")
       | some res =>
@@ -214,7 +251,8 @@ def run (args : List String) : IO UInt32 := do
     typeChangeDetected := yes kv "typeChangeDetected", valueShared := yes kv "valueShared",
     flagsSticky := yes kv "flagsSticky", setVoidClearsTyped := yes kv "setVoidClearsTyped",
     initialisedAfterFill := yes kv "initialisedAfterFill", refileGuardExpire := yes kv "refileGuardExpire",
-    patchExpiredReindexesAll := yes kv "patchExpiredReindexesAll" }
+    patchExpiredReindexesAll := yes kv "patchExpiredReindexesAll", windowBoundsChecked := yes kv "windowBoundsChecked",
+    claimLoserRefiled := yes kv "claimLoserRefiled" }
   lineLoop step { cfg := cfg, s := St.init }
   return 0
 
